@@ -1,5 +1,7 @@
 package main
 
+import "strings"
+
 // C05 — no tokens or token metadata without client authentication and a registered grant (DESIGN §5 C05).
 
 func init() {
@@ -117,6 +119,15 @@ func init() {
 			Req: []string{"def($client, _.GetClientByClientID(_, $req.ClientID), 0)", "ok(_.GetClientByClientID(_, $req.ClientID))",
 				`(eq($req.ClientSecret, "") && eq($client.AuthMethod(), oidc.AuthMethodNone)) || (neq($req.ClientSecret, "") && secretOK($req.ClientID, $req.ClientSecret) && (neq($client.AuthMethod(), oidc.AuthMethodPost) || true($revoker.AuthMethodPostSupported())))`}},
 		{ID: "E1.revoke.parse.only", Fn: "op.ParseTokenRevocationRequest", Kind: "ret ok", Max: 4},
+	}
+	for _, o := range obs {
+		if o.ID == "E1.introspect.provider" || o.ID == "E1.introspect.legacy-server" || o.ID == "E1.server.introspect.authenticated" {
+			o.ID = strings.Replace(o.ID, "E1.introspect", "E1.introspect.caller", 1)
+			sharedObs["C08"] = append(sharedObs["C08"], o)
+		}
+	}
+	for _, fn := range []string{"op.ClientBasicAuth", "op.ClientJWTAuth", "op.ClientIDFromRequest", "op.ParseTokenIntrospectionRequest", "op.(*LegacyServer).authenticateResourceClient", "op.AuthorizeClientIDSecret"} {
+		guarAlso[fn] = append(guarAlso[fn], "C08")
 	}
 	register(&PropSpec{
 		ID: "C05",
